@@ -30,6 +30,7 @@ class FakeOS:
         self.next_pid = 5000
         self.kills = 0
         self.log = []
+        self.sems = {}         # name -> linked? (the named-semaphore namespace, C13 programs)
         for k in ("name", "environ", "getpid", "WNOHANG", "O_RDONLY", "fspath", "path", "sep"):
             setattr(self, k, getattr(real_os, k))
 
@@ -63,6 +64,8 @@ class FakeOS:
 
     def write(self, fd, data):
         self._p("os.write")
+        if not isinstance(fd, int):
+            raise TypeError(f"'{type(fd).__name__}' object cannot be interpreted as an integer")
         if fd not in self.fds or self.fds[fd][1] != "w":
             raise OSError(errno.EBADF, "Bad file descriptor")
         p = self.pipes[self.fds[fd][0]]
@@ -122,6 +125,16 @@ PROGRAMS = {
     "live-1-killer-two-ops": (["reg:x"], [["reg:a", "unreg:a"]], True),
     "dead-getfd": (["reg:x", "kill"], [["getfd"], ["reg:b"]], False),
 }
+# C13: the real SemLock constructor (named semaphore created, then registered, then a finalizer)
+# as the first use of the tracker from racing threads, or after the tracker died
+SEM_PROGRAMS = {
+    "sem-cold-2": ([], [["sem:a"], ["sem:b"]], False),
+    "sem-cold-3": ([], [["sem:a"], ["sem:b"], ["sem:c"]], False),
+    "sem-cold-reg": ([], [["reg:a"], ["sem:b"]], False),
+    "sem-dead-2": (["sem:x", "kill"], [["sem:a"], ["sem:b"]], False),
+    "sem-warm-2": (["sem:x"], [["sem:a", "sem:c"], ["sem:b"]], False),
+}
+PROGRAMS.update(SEM_PROGRAMS)
 
 
 class Record:
@@ -131,6 +144,7 @@ class Record:
 def run_program(name, prefix=(), kinds=("P",)):
     pre, thr_ops, killer = PROGRAMS[name]
     rt = common.load("loky.backend.resource_tracker")
+    syn = common.load("loky.backend.synchronize")
     import multiprocessing.resource_tracker as mrt
     S = K.Sched(prefix, kinds=kinds, horizon=20_000)
     K.S = S
@@ -154,6 +168,8 @@ def run_program(name, prefix=(), kinds=("P",)):
                 tr.maybe_unlink(arg, "file")
             elif kind == "getfd":
                 e["fd"] = tr.getfd()
+            elif kind == "sem":
+                sems.append(syn.SemLock(1, 1, 1))       # the real constructor
             elif kind == "kill":
                 fos.kill_current()
         except (SimAbort, SimKilled):
@@ -176,9 +192,44 @@ def run_program(name, prefix=(), kinds=("P",)):
             t.start()
         for t in ths:
             t.join()
+        # normal end of the process: the finalizers registered by the constructors run
+        del sems[:]
+        for fn, args in reversed(finalizers):
+            try:
+                fn(*args)
+            except (SimAbort, SimKilled):
+                raise
+            except BaseException as ex:      # noqa
+                rec.finalizer_errors.append(f"{type(ex).__name__}: {ex}")
         rec.final_fd = tr._fd
         rec.final_pid = tr._pid
 
+    sems, finalizers = [], []
+    rec.finalizer_errors = []
+
+    class FakeSemLock:
+        def __init__(self, kind, value, maxvalue, name, unlink_now):
+            S.point(label="sem_open")
+            if fos.sems.get(name):
+                raise FileExistsError(name)
+            fos.sems[name] = True
+            fos.log.append(("sem_open", name))
+            self.name, self.kind, self.maxvalue, self.handle = name, kind, maxvalue, len(fos.sems)
+
+        def acquire(self, *a):
+            return True
+
+        def release(self):
+            pass
+
+    def fake_unlink(name):
+        S.point(label="sem_unlink")
+        if not fos.sems.get(name):
+            raise FileNotFoundError(name)
+        fos.sems[name] = False
+
+    saved_syn = dict(_SemLock=syn._SemLock, resource_tracker=syn.resource_tracker, util=syn.util,
+                     sem_unlink=syn.sem_unlink)
     fthreading = types.SimpleNamespace(RLock=_RLock, Lock=shims.Lock)
     fsig = types.SimpleNamespace(**{k: getattr(rt.signal, k) for k in dir(rt.signal)
                                     if k.startswith("SIG")})
@@ -191,9 +242,17 @@ def run_program(name, prefix=(), kinds=("P",)):
         rt.signal = fsig
         rt.warnings = mrt.warnings = types.SimpleNamespace(warn=lambda m, *a, **k: warns.append(str(m)))
         tr = rt.ResourceTracker()
+        syn._SemLock = FakeSemLock
+        syn.sem_unlink = fake_unlink
+        syn.resource_tracker = types.SimpleNamespace(register=tr.register, unregister=tr.unregister)
+        syn.util = types.SimpleNamespace(
+            debug=lambda *a: None, register_after_fork=lambda *a: None,
+            Finalize=lambda obj, fn, args=(), exitpriority=None: finalizers.append((fn, args)))
         rec.verdict = S.run(main)
     finally:
         K.S = None
+        for k, v in saved_syn.items():
+            setattr(syn, k, v)
         rt.os, mrt.os = saved["os"], saved["mos"]
         rt.spawnv_passfds = saved["spawn"]
         mrt.threading = saved["mthreading"]
@@ -258,6 +317,16 @@ def judge(name, rec):
                 v.append(("C12:S:registration-lost",
                           f"[{name}] {e['who']} registered {arg!r} after the last tracker death "
                           f"but the living tracker never received it (it got {got.split()})"))
+    # C13: once the process has ended normally and the tracker has swept what it was told about,
+    # no named semaphore is left (a name is either unlinked by its finalizer or known to a
+    # tracker that outlives the process)
+    known = b"".join(g for t in fos.trackers if not t["killed"] for g in t["got"]).decode()
+    for sname, linked in fos.sems.items():
+        if linked and f"REGISTER:{sname}:semlock" not in known:
+            v.append(("C13:S:sem-outlives-tree:never-registered",
+                      f"[{name}] named semaphore {sname} was created but neither unlinked at the "
+                      f"normal end of the process nor made known to a surviving tracker: it stays "
+                      f"for ever (ops {[(e['who'], e['op'], e.get('exc')) for e in rec.ops]})"))
     # one warning per relaunch after a death
     relaunch_warn = sum(1 for w in rec.warns if "died unexpectedly" in w)
     if relaunch_warn > fos.kills:
@@ -271,13 +340,13 @@ def judge(name, rec):
     return v
 
 
-def explore_all(bound, deeper=None):
+def explore_all(bound, deeper=None, programs=None):
     """Every schedule of every program with at most `bound` preemptions (stateless DFS);
     deeper = {program: bound} overrides the bound for the small programs."""
     out = dict(executions=0, violations=[], states=set(), transitions=set(), per_program={},
                internal=[], outcomes=set(), bounds={})
     default_bound = bound
-    for name in PROGRAMS:
+    for name in (programs or [p for p in PROGRAMS if p not in SEM_PROGRAMS]):
         bound = (deeper or {}).get(name, default_bound)
         out["bounds"][name] = bound
         stack = [()]
